@@ -12,7 +12,7 @@ use std::pin::Pin;
 use std::task::{Context, Poll, RawWaker, RawWakerVTable, Waker};
 use tokio::io::{AsyncRead, AsyncWrite, ReadBuf};
 
-const CAP: usize = 256 * 1024 * 1024;
+pub const CAP: usize = 256 * 1024 * 1024;
 
 #[derive(Clone, Debug, Serialize, Deserialize, PartialEq)]
 pub struct Case {
@@ -337,7 +337,7 @@ fn all_chunkings(max_bytes: usize) -> Vec<Case> {
     out
 }
 
-fn strategy() -> impl Strategy<Value = Case> {
+pub fn strategy() -> impl Strategy<Value = Case> {
     let len = prop_oneof![
         6 => prop::sample::select(vec![0usize, 1, 2, 3, 255, 256, 1000]),
         2 => prop::sample::select(vec![8191usize, 8192, 8193, 10_000, 65535, 65536, 65537]),
